@@ -909,6 +909,16 @@ def check_schema_ddl(u):
     src, msk, o, c = _fn_body(file, u["fn"])
     obligations = ["destructive-ddl-only-in-the-branch-closed-by-the-changed-columns-guard", "no-other-destructive-statement-text"]
     failures = []
+    # "an existing column's definition is unchanged" is decided with `new_col != col`: that comparison has to be the derived, field-wise one
+    # (it includes the raw definition text); a hand-written PartialEq that skips a field lets an edit of that field through
+    obligations.append("column-equality-is-the-derived-field-wise-one")
+    whole = open(os.path.join(REPO, file)).read()
+    wm = mask(whole)
+    dm = re.search(r"#\[derive\(([^\]]*)\)\]\s*pub\s+struct\s+Column\b", wm)
+    if not dm:
+        raise LostAnchor("struct Column with a derive list not found in %s" % file)
+    if not re.search(r"\bPartialEq\b", dm.group(1)) or re.search(r"\bimpl\s+(?:<[^>]*>\s*)?(?:std::cmp::|core::cmp::)?PartialEq\b[^{]*\bfor\s+Column\b", wm):
+        failures.append(("column-equality-is-the-derived-field-wise-one", _line(whole, dm.start()), "Column's PartialEq is hand-written (or missing from the derive list): equality may ignore part of the definition"))
     lits = [(a, t) for (a, t) in iter_string_literals(src) if o <= a < c]
     destructive = [(a, t) for (a, t) in lits if re.search(r"\bDROP\s+TABLE\b|\bRENAME\s+TO\b|\bDROP\s+COLUMN\b|\bDELETE\s+FROM\b|\bRENAME\s+COLUMN\b", t, re.I)]
     g = re.search(r"\bif\s*!\s*changed_cols\s*\.\s*is_empty\s*\(\s*\)\s*\{", msk[o:c])
@@ -981,7 +991,19 @@ def check_schema_atomic(u):
         failures.append((obligations[3], _line(src, p_assign), "the in-memory schema is assigned more than once"))
     if not (p_lock < p_clone and p_lock < p_tx):
         failures.append((obligations[4], _line(src, p_lock), "the schema write lock is not taken before the candidate is built and applied"))
-    return obligations, failures, ["%s:%d lock < clone+insert < constrain? < immediate_transaction? < apply_schema? < commit? < apply_res? < *schema_write = new_schema" % (file, _line(src, p_lock))]
+    # the persisted copy of the schema (what init_schema reloads after a restart) is refreshed wholesale for every submitted table:
+    # the old rows are deleted before the current sqlite_schema rows are copied, inside the same transaction — a bare INSERT OR REPLACE
+    # would leave the rows of dropped indexes behind
+    obligations.append("persisted-schema-rows-of-submitted-tables-are-replaced-wholesale")
+    from .lex import iter_string_literals
+    lits = [(a, t) for (a, t) in iter_string_literals(src) if o <= a < c and "__corro_schema" in t]
+    dels = [a for (a, t) in lits if re.search(r"^\s*DELETE\s+FROM\s+__corro_schema\s+WHERE\s+tbl_name\s*=\s*\?", t, re.I)]
+    inss = [a for (a, t) in lits if re.search(r"^\s*INSERT\s+(OR\s+\w+\s+)?INTO\s+__corro_schema\s+SELECT\b.*\bFROM\s+sqlite_schema\s+WHERE\s+tbl_name\s*=\s*\?", t, re.I | re.S)]
+    if not inss:
+        raise LostAnchor("execute_schema: the __corro_schema refresh INSERT … SELECT … FROM sqlite_schema was not found")
+    if not dels or not (p_apply < dels[0] < inss[0] < (p_commit or c)):
+        failures.append((obligations[-1], _line(src, inss[0]), "the rows of a submitted table are not deleted from __corro_schema before the current ones are copied (between apply_schema and commit): rows of dropped indexes survive and are reloaded after a restart"))
+    return obligations, failures, ["%s:%d lock < clone+insert < constrain? < immediate_transaction? < apply_schema? < DELETE+INSERT __corro_schema < commit? < apply_res? < *schema_write = new_schema" % (file, _line(src, p_lock))]
 
 
 def check_cluster_id_fresh(u):
